@@ -270,6 +270,22 @@ def r5(ctx, retsets):
         ctx.check(good, "C17.R5", "%s:remaining-time-per-attempt" % lname, a.loc(),
                   "timeout of each attempt = %s; derived from a clock reading inside the loop: %s; from the deadline (clock before the loop + timeout): %s" % (
                       vf.show(te), uses_now, uses_end and end_has_timeout), key="C17.R5:%s:remaining" % lname)
+    # a wait of 0 (the refresh interval has run out) must not block: the TCP transport polls, and otherwise arms the socket timeout
+    MSG_DONTWAIT, SO_RCVTIMEO = 0x40, 20
+    tf = pdb.fn("tr_tcp_recv")
+    ctx.touch(tf)
+    for tv, name in ((0, "timeout 0"), (1, "timeout 1"), (3600, "timeout 3600")):
+        def cl_t(inst, E, st):
+            if inst.op == "call" and inst.callee == "recv":
+                return ["recv:%s" % ("nonblocking" if (flow.av_single(E.val(inst.args[3])) or 0) & MSG_DONTWAIT else "blocking")]
+            if inst.op == "call" and inst.callee == "setsockopt" and flow.av_single(E.val(inst.args[2])) == SO_RCVTIMEO:
+                return [(["rcvtimeo"], {inst.ref: flow.av_in(0)})]
+            return None
+        outs_t, _f = es.count_effects(tf, pdb, cl_t, None, cell={3: tv})
+        want = {"recv:nonblocking": 1} if tv == 0 else {"rcvtimeo": 1, "recv:blocking": 1}
+        found = [o["counts"] for o in outs_t]
+        ctx.check(bool(outs_t) and all(c == want for c in found), "C17.R5", "tr_tcp_recv[%s]" % name, "%s:%d" % (tf.relfile, tf.line),
+                  "effects %s, expected %s (SO_RCVTIMEO 0 would mean: wait for ever)" % (sorted({tuple(sorted(c)) for c in found}), sorted(want)), key="C17.R5:tcp_recv:%d" % tv)
     # outcome table
     notify = pdb.enum_value("SERIAL_NOTIFY")
     wb = pdb.enum_value("TR_WOULDBLOCK")
